@@ -152,7 +152,7 @@ done:
 				if v, has = tv[key]; has {
 					if int(fi) == len(wx)-1 { // last one
 						if nv, changed := modifier(v); changed {
-							tv[key] = nv.(gen.Node)
+							tv[key] = asNode(nv)
 							if one && changed {
 								break done
 							}
@@ -222,7 +222,7 @@ done:
 				if 0 <= i && i < len(tv) {
 					if int(fi) == len(wx)-1 { // last one
 						if nv, changed := modifier(tv[i]); changed {
-							tv[i] = nv.(gen.Node)
+							tv[i] = asNode(nv)
 							if one && changed {
 								break done
 							}
@@ -321,7 +321,7 @@ done:
 				if int(fi) == len(wx)-1 { // last one
 					for k = range tv {
 						if nv, changed := modifier(tv[k]); changed {
-							tv[k] = nv.(gen.Node)
+							tv[k] = asNode(nv)
 							if one && changed {
 								break done
 							}
@@ -339,7 +339,7 @@ done:
 				if int(fi) == len(wx)-1 { // last one
 					for i := range tv {
 						if nv, changed := modifier(tv[i]); changed {
-							tv[i] = nv.(gen.Node)
+							tv[i] = asNode(nv)
 							if one && changed {
 								break done
 							}
@@ -425,7 +425,7 @@ done:
 						if v, has = tv[tu]; has {
 							if int(fi) == len(wx)-1 { // last one
 								if nv, changed := modifier(v); changed {
-									tv[tu] = nv.(gen.Node)
+									tv[tu] = asNode(nv)
 									if one && changed {
 										break done
 									}
@@ -497,7 +497,7 @@ done:
 						if 0 <= i && i < len(tv) {
 							if int(fi) == len(wx)-1 { // last one
 								if nv, changed := modifier(tv[i]); changed {
-									tv[i] = nv.(gen.Node)
+									tv[i] = asNode(nv)
 									if one && changed {
 										break done
 									}
@@ -665,7 +665,7 @@ done:
 					for i := start; i <= end; i += step {
 						if int(fi) == len(wx)-1 { // last one
 							if nv, changed := modifier(tv[i]); changed {
-								tv[i] = nv.(gen.Node)
+								tv[i] = asNode(nv)
 								if one && changed {
 									break done
 								}
@@ -682,7 +682,7 @@ done:
 					for i := start; end <= i; i += step {
 						if int(fi) == len(wx)-1 { // last one
 							if nv, changed := modifier(tv[i]); changed {
-								tv[i] = nv.(gen.Node)
+								tv[i] = asNode(nv)
 								if one && changed {
 									break done
 								}
@@ -772,7 +772,7 @@ done:
 					for i, vv := range tv {
 						if tf.matchWithRoot(vv, data) {
 							if nv, changed := modifier(vv); changed {
-								tv[i] = nv.(gen.Node)
+								tv[i] = asNode(nv)
 								if one && changed {
 									break done
 								}
@@ -963,4 +963,13 @@ func mapElemValue(rv reflect.Value, v any) reflect.Value {
 		return reflect.Zero(rv.Type().Elem())
 	}
 	return reflect.ValueOf(v)
+}
+
+// asNode converts the value returned by a modifier to a gen.Node. A nil value
+// is the null node.
+func asNode(v any) gen.Node {
+	if v == nil {
+		return nil
+	}
+	return v.(gen.Node)
 }
